@@ -275,8 +275,20 @@ theorem kp_modH (s : State) (id : Nat) (g : Handle → Handle) (hg : ∀ h, qq (
 @[simp] theorem kp_completeWorks (s : State) (k : Nat) : kp (completeWorks s k) = kp s := by
   unfold completeWorks; split; · rfl
   simp only; rw [kp_asyncSend]; rfl
-@[simp] theorem kp_workSubmit (s : State) : kp (workSubmit s) = kp s := by
-  unfold workSubmit; simp only; split <;> rfl
+@[simp] theorem kp_workSubmit (s : State) (api : Api) : kp (workSubmit s api) = kp s := by
+  unfold workSubmit; simp only; split
+  · split
+    · rfl
+    · rw [kp_asyncSend]; rfl
+  · rfl
+@[simp] theorem kp_ringInit (s : State) : kp (ringInit s) = kp s := by
+  unfold ringInit; split <;> rfl
+@[simp] theorem kp_submit (s : State) (api : Api) : kp (submit s api) = kp s := by
+  unfold submit; simp only; split
+  · split
+    · unfold ringSubmit; simp only; exact kp_ringInit s
+    · rw [kp_workSubmit, kp_ringInit]
+  · rw [kp_workSubmit]
 @[simp] theorem kp_workCancel (s : State) (r : Nat) : kp (workCancel s r).1 = kp s := by
   unfold workCancel; split
   · simp only; rw [kp_asyncSend]; rfl
@@ -674,7 +686,12 @@ theorem applyOp_keep (s : State) (o : Op) : OpRes s (applyOp s o).1 := by
         · exact .inl (KeepQ.of_kp (kp_modH s id _ (by intro _; rfl)))
         · exact .inl (KeepQ.of_kp rfl)
       · exact .inl (KeepQ.of_kp rfl)
-    | work => exact .inl (KeepQ.of_kp (kp_workSubmit s))
+    | work api =>
+      simp only
+      split
+      · exact .inl (KeepQ.of_kp rfl)
+      · exact .inl (KeepQ.of_kp (kp_submit s api))
+    | useIoUring => exact .inl (KeepQ.of_kp rfl)
     | workNull => exact .inl (KeepQ.refl _)
     | reject api => simp only; split <;> first | exact .inl (KeepQ.refl _) | exact .inl (KeepQ.of_kp rfl)
     | udpSendBad id =>
